@@ -212,6 +212,9 @@ pub fn unmarshal_signature(buf: &[u8]) -> UnmarshalResult<(usize, &str)> {
     let sig_buf = &buf[1..][..len];
     let string =
         std::str::from_utf8(sig_buf).map_err(|_| crate::params::validation::Error::InvalidUtf8)?;
+    if buf[len + 1] != 0 {
+        return Err(UnmarshalError::MissingNulTerminator);
+    }
     Ok((len + 2, string))
 }
 
@@ -233,6 +236,9 @@ pub fn unmarshal_str<'r, 'a: 'r>(
         .map_err(|_| crate::params::validation::Error::InvalidUtf8)?;
     if string.contains('\0') {
         return Err(crate::params::validation::Error::StringContainsNullByte.into());
+    }
+    if str_buf[len] != 0 {
+        return Err(UnmarshalError::MissingNulTerminator);
     }
     Ok((len + 5, string))
 }
